@@ -394,6 +394,56 @@ fn cli_sigint_case(stmt: &str, n: usize, aggregate: bool) -> Result<Option<(Vec<
     Ok(Some((out.lines().filter(|l| !l.is_empty()).map(|l| l.to_string()).collect(), ended)))
 }
 
+/// big inputs (4200 lines in one / two files): an interrupt before line k (k around powers of two and every k of
+/// 4090..4130) lets no line from k on be consumed; a plain SELECT has printed exactly the first k rows, an aggregate
+/// that prints anything has counted exactly k lines
+fn big_input_layer(col: &Collector, ctx: &Ctx) {
+    let tables = sut::make_tables("CREATE TABLE b(line = '^n=([0-9]+)$', line[1] => n INT);").expect("big def");
+    let total = 4200usize;
+    let content: Vec<u8> = (0..total).flat_map(|i| format!("n={}\n", i).into_bytes()).collect();
+    let split_at: usize = (0..4000).map(|i| format!("n={}\n", i).len()).sum();
+    let mut ks: Vec<usize> = vec![0, 1, 15, 16, 17, 255, 256, 257, 1023, 1024, 1025, 2047, 2048, 2049, 4199];
+    ks.extend(4090..ctx.tier.pick(4130, 4199));
+    let stmts = ["SELECT n FROM b", "SELECT COUNT(*) AS c, MAX(n) AS m FROM b"];
+    let items: Vec<(usize, usize, bool)> = ks.iter().flat_map(|k| (0..stmts.len()).flat_map(move |si| [false, true].into_iter().map(move |two| (*k, si, two)))).collect();
+    let describe = |idx: u64| json!({"hang": true, "big_input": format!("{:?}", items[idx as usize])});
+    let (done, complete) = par_for_watch(ctx, items.len() as u64, 4, &describe, |idx| {
+        let (k, si, two) = items[idx as usize];
+        let files: Vec<&[u8]> = if two { vec![&content[..split_at], &content[split_at..]] } else { vec![&content[..]] };
+        let (r, _) = run_with(&tables, stmts[si], &files, &Interrupt::BeforeBatchLoad(k));
+        col.eval(1);
+        col.nontrivial(h64(&("big", k, si, two)));
+        let case = json!({"layer": "big-input", "k": k, "stmt": si, "statement": stmts[si], "two_files": two});
+        match r {
+            Outcome::Panic(p) => col.fail(fail(format!("big-input:panic:{}", msg_class(&p.msg)), format!("`{}` interrupted before line {} of 4200 panicked: {}", stmts[si], k, p.msg), case, json!("no panic"), json!(p.msg), k as u64)),
+            Outcome::Err(e) => col.fail(fail("big-input:error".into(), format!("`{}` interrupted before line {} of 4200: {}", stmts[si], k, e), case, json!("ok"), json!(e), k as u64)),
+            Outcome::Ok(fr) => {
+                let got = nonblank(&fr.printed);
+                let mut dev: Option<String> = None;
+                if fr.total_lines > k as u64 {
+                    dev = Some(format!("{} lines consumed", fr.total_lines));
+                }
+                if si == 0 {
+                    let want: Vec<String> = (0..k).map(|i| format!("{{\"n\":{}}}", i)).collect();
+                    let norm: Vec<String> = got.iter().map(|l| l.replace(' ', "")).collect();
+                    if norm != want {
+                        dev = Some(format!("{} rows printed, last {:?}", got.len(), got.last()));
+                    }
+                } else if let Some(l) = got.first() {
+                    let c = serde_json::from_str::<J>(l).ok().and_then(|j| j["c"].as_i64());
+                    if c != Some(k as i64) {
+                        dev = Some(format!("table printed: {}", l));
+                    }
+                }
+                if let Some(d) = dev {
+                    col.fail(fail(format!("big-input:{}:consumed-after-interrupt", if si == 0 { "select" } else { "aggregate" }), format!("`{}` over 4200 lines ({}) interrupted before line {}: {}", stmts[si], if two { "files of 4000 + 200 lines" } else { "one file" }, k, d), case, json!({"lines_consumed": k}), json!({"total_lines": fr.total_lines, "printed": got.len(), "last": got.last()}), k as u64));
+                }
+            }
+        }
+    });
+    col.layer("big input (4200 lines): interrupt before line k", done, complete, json!({"k": ks.len(), "statements": stmts, "files": ["one", "4000+200"]}));
+}
+
 fn cli_sigint_layer(col: &Collector) {
     let mut n_cases = 0u64;
     let mut missing = false;
@@ -519,7 +569,8 @@ pub fn run(ctx: &Ctx) -> i32 {
             }
         }
         col.layer("follow-mode interrupt (FollowFileExecutor in child processes)", nf, true, json!({"interrupt_points": "before load 0..4", "statements": 3}));
-        cli_sigint_layer(&col);
+        big_input_layer(&col, ctx);
+    cli_sigint_layer(&col);
     }
     finish(
         ctx,
@@ -540,6 +591,13 @@ pub fn replay(case: &J) -> Vec<Failure> {
         cli_sigint_layer(&col);
         let f = col.failures.lock().unwrap();
         return f.values().flat_map(|v| v.iter().cloned()).filter(|f| f.case == *case).collect();
+    }
+    if case["layer"].as_str() == Some("big-input") {
+        let col = Collector::new();
+        let ctx = Ctx { prop: "C19", tier: Tier::Thorough, seed: 0, start: std::time::Instant::now(), budget_s: 600.0 };
+        big_input_layer(&col, &ctx);
+        let f = col.failures.lock().unwrap();
+        return f.values().flat_map(|v| v.iter().cloned()).filter(|f| f.case["stmt"] == case["stmt"]).collect();
     }
     let w = world();
     let seq: Vec<u8> = case["seq"].as_array().unwrap().iter().map(|x| x.as_u64().unwrap() as u8).collect();
